@@ -98,6 +98,15 @@ def run_case(ctx, q, tables, route, label, mon, check_traces=False):
             ctx.count('excluded.model_raises_only')
         return
     ctx.count('obs.rows_compared', len(mrows))
+    if hash(case['statement']) % 5 == 0:
+        # re-execution on the same connection gives the same rows (no state kept between executions)
+        try:
+            _, _, rows_again = engine.run(conn, ir.to_text(q) if route == 'text' else ir.to_ast(q), params)
+            ctx.count('obs.reexecutions')
+            if not same_rows(rows_again, rows):
+                ctx.violation('c01.reexecution_differs', f'{case["statement"]}: a second execution on the same connection returns different rows', case)
+        except Exception as exc:  # noqa: BLE001
+            ctx.violation('c01.reexecution_differs', f'{case["statement"]}: a second execution raised {exc!r}', case)
     if len(ctx.samples) < 4 and nontrivial(q, mt) and rows:
         ctx.sample({'statement': case['statement'], 'route': route, 'table_rows': show_rows(mt.rows, 4),
                     'result_rows': show_rows(rows, 4)})
